@@ -21,11 +21,27 @@ def items(ctx, un=gen.BODY_UN, bi=gen.BODY_BIN, n=None, depth=None, salt='items'
     depth = depth or (3 if ctx.quick else 4)
     out = []
     for i in range(n):
-        atoms = ATOMS + (['c'] if rng.random() < 0.3 else [])
+        atoms = ATOMS + (['c'] if rng.random() < 0.3 else []) + (['-a'] if rng.random() < 0.2 else [])
         pool = []
         k = rng.choice([1, 2, 2, 3, 4])
         fs = [('tel', gen.late_future(rng, atoms) if (un is gen.BODY_UN and rng.random() < 0.25) else gen.formula(rng, atoms, rng.randint(1, depth), un, bi, pool)) for _ in range(k)]
         out.append((gen.context_program(rng, atoms), fs))
+    if un is gen.BODY_UN:
+        # fixed family: an atom and its classical complement below the same operators, in both orders (two formulas that differ in the sign only)
+        a, na, b = ('atom', 'a'), ('atom', '-a'), ('atom', 'b')
+        ctxp = [{'part': 'always', 'head': ('choice', ['a', 'b', '-a']), 'body': []}]
+        for w in [lambda x: x, lambda x: ('not', x), lambda x: ('prev', None, x), lambda x: ('next', None, x), lambda x: ('wnext', 2, x), lambda x: ('since', None, x), lambda x: ('until', b, x),
+                  lambda x: ('and', x, b), lambda x: ('impr', x, b), lambda x: ('initially', x), lambda x: ('finally', x), lambda x: ('release', x, b), lambda x: ('seqprev', b, x)]:
+            out.append((ctxp, [('tel', w(a)), ('tel', w(na))]))
+            out.append((ctxp, [('tel', w(na)), ('tel', w(a))]))
+        out.append((ctxp, [('tel', ('or', ('prev', None, a), ('prev', None, na)))]))
+        # ... and the two nestings of a chain of one binary operator (two formulas that differ in the bracketing only)
+        c = ('atom', 'c')
+        ctxq = [{'part': 'always', 'head': ('choice', ['a', 'b', 'c']), 'body': []}]
+        for op in bi:
+            fl, fr = (op, (op, a, b), c), (op, a, (op, b, c))
+            out.append((ctxq, [('tel', fl), ('tel', fr)]))
+            out.append((ctxq, [('tel', fr), ('tel', fl)]))
     return out
 
 
